@@ -393,6 +393,9 @@ def run(ctx):
     failures, divergences = [], []
     n_thread, f_thread = thread_delivery_stream()
     failures.extend(f_thread)
+    from harness.props import c16_states
+    with mp.Pool(1, maxtasksperchild=1) as pool:          # impl-only: a process class with a state of its own
+        failures.extend(pool.apply(c16_states.run_stream))
     hist, kinds = {}, {}
     # model comparison: all streams of all cases, in parallel driver instances
     flat = []      # (case index, ops, lines)
@@ -451,6 +454,11 @@ def _from_dict(c):
 
 
 def replay(ctx, failure):
+    if failure['case'].get('custom_states'):
+        from harness.props import c16_states
+        with mp.Pool(1, maxtasksperchild=1) as pool:
+            fs = pool.apply(c16_states.run_stream)
+        return dict(failures=[dict(signature=f['signature'], detail=f['detail']) for f in fs])
     if failure['case'].get('thread_stream'):
         n, fs = thread_delivery_stream()
         return dict(runs=n, failures=[dict(signature=f['signature'], detail=f['detail']) for f in fs])
